@@ -1,6 +1,6 @@
 (* Proofs of the C11 statements (Spec/C11_Spec.v). *)
 From BV Require Import Base.Prelude Model.FileSeq Model.Pipeline Spec.C10_Spec Spec.C11_Spec
-  Proofs.FileSeqFacts Proofs.PipelineDefs Proofs.PipelineInv Proofs.PipelineLive Proofs.C10_Proofs.
+  Proofs.FileSeqFacts Proofs.PipelineDefs Proofs.PipelineInv Proofs.PipelineLive Proofs.C10_Proofs Proofs.PipelineBound.
 Local Open Scope nat_scope.
 
 Lemma c11_returns_proof : C11_returns.
@@ -15,6 +15,14 @@ Qed.
 
 Lemma c11_quiesces_proof : C11_quiesces.
 Proof. exact c10_order_quiesces_proof. Qed.
+
+Lemma c11_fires_proof : C11_fires.
+Proof.
+  intros pre C sched Hfix Hsite s Q.
+  apply (fires_core pre C Hfix s); auto.
+  - apply run_pres; [exact Hfix|apply Inv_init].
+  - apply reachable_binv; exact Hfix.
+Qed.
 
 Lemma c11_error_proof : C11_error.
 Proof.
